@@ -925,11 +925,11 @@ def _sig_f1530(sub, desc, bucket, message):
 
 
 SUBCHECKS = [
-    SubCheck("single", run_case, strategy=lambda: st_case(multi=False), quick=400, thorough=14000, min_per_shard=5,
+    SubCheck("single", run_case, strategy=lambda: st_case(multi=False), quick=320, thorough=14000, min_per_shard=5,
              required_classes=("preempted_in_resolution", "failing_runs_omitted", "exception_propagated")),
-    SubCheck("multi", run_case, strategy=lambda: st_case(multi=True), quick=240, thorough=8000, min_per_shard=5,
+    SubCheck("multi", run_case, strategy=lambda: st_case(multi=True), quick=200, thorough=8000, min_per_shard=5,
              required_classes=("preempted_in_resolution",)),
-    SubCheck("coldrace", run_case, strategy=lambda: st_case(multi=False, racy=True), quick=240, thorough=8000,
+    SubCheck("coldrace", run_case, strategy=lambda: st_case(multi=False, racy=True), quick=200, thorough=8000,
              min_per_shard=5, required_classes=("preempt@_plugins_to_cache",)),
     SubCheck("realthreads", run_real, enumerate=enum_real),
 ]
